@@ -405,6 +405,14 @@ func (d *Decoder) decodeAddress(valueJSON any) cadence.Address {
 		panic(errors.NewDefaultUserError("invalid address: %w", err))
 	}
 
+	if len(b) > cadence.AddressLength {
+		panic(errors.NewDefaultUserError(
+			"invalid address: expected at most %d bytes, got %d",
+			cadence.AddressLength,
+			len(b),
+		))
+	}
+
 	return cadence.BytesToMeteredAddress(d.gauge, b)
 }
 
